@@ -26,6 +26,7 @@
 #include <algorithm>
 #include <cinttypes>
 #include <cstring>
+#include <ctime>
 #include <exception>
 #include <fcntl.h>
 #include <fstream>
@@ -549,9 +550,18 @@ int run_main(int argc, char **argv) {
         call_enumerate<H>(ctx, shard, nshards, enum_what);
         ok = !ctx.failed;
     } else if (mode == "check") {
+        // Shrinking is bounded by wall time (a budget, not an oracle): once a failure has been shrunk for 40 s every further
+        // candidate is skipped, which ends rapidcheck's shrink loop with the smallest failing case found so far.
+        static time_t first_failure = 0;
         ok = rc::check(H::name(), [&ctx]() {
             typename H::Case c  = *H::gen();
+            if (first_failure != 0 && time(nullptr) - first_failure > 40) {
+                return;
+            }
             Status             st = exec_case<H>(ctx, c);
+            if (st == Status::Fail && first_failure == 0) {
+                first_failure = time(nullptr);
+            }
             if (st == Status::Discarded) {
                 RC_DISCARD("discarded by harness");
             }
